@@ -91,6 +91,8 @@ func init() {
 		mp(lib("StrStringer"), k("int")), mp(lib("IntStringer"), k("int")), mp(lib("MyString"), k("int")), mp(arr(k("int")), k("int")), mp(st(k("int")), k("int")),
 		sl(sl(k("complex64"))), ptr(ptr(k("int"))), st(st(k("complex128"))), sl(mp(k("string"), sl(k("uintptr")))), st(ptr(k("bytes")), mp(k("int"), ptr(lib("MyErr")))),
 		ptr(lib("Tagged")), sl(lib("Outer")),
+		// keys with a method set other than Stringer (seeded/C09-b: an error key accepted statically only)
+		mp(lib("MyErr"), k("int")), mp(ptr(lib("MyErr")), k("int")), mp(lib("EnvStr"), k("int")), mp(arr(lib("MyErr")), k("int")), mp(lib("MyErr"), sl(lib("MyErr"))),
 	)
 }
 
